@@ -27,12 +27,78 @@ type c14Obj struct {
 	i    int64
 	s    string
 	a, d *c14Obj
+	// proper: a cons chain ending in nil that is meant as a list (written (list …) in the source)
+	proper bool
 }
 
 func c14Int(i int) c14Obj        { return c14Obj{k: 'i', i: int64(i)} }
 func c14Sym(s string) c14Obj     { return c14Obj{k: 'y', s: s} }
 func c14Chr(r rune) c14Obj       { return c14Obj{k: 'c', i: int64(r)} }
 func c14Pair(a, d c14Obj) c14Obj { return c14Obj{k: 'p', a: &a, d: &d} }
+
+// c14List: a proper list object (an element that is itself a list); on the wire a cons chain
+func c14List(es ...c14Obj) c14Obj {
+	out := c14Nil
+	for i := len(es) - 1; 0 <= i; i-- {
+		out = c14Pair(es[i], out)
+	}
+	out.proper = true
+	return out
+}
+
+// elems of a proper list object
+func (o c14Obj) listElems() []c14Obj {
+	var out []c14Obj
+	for o.k == 'p' {
+		out = append(out, *o.a)
+		o = *o.d
+	}
+	return out
+}
+
+// c14ObjFromWire parses an object wire term
+func c14ObjFromWire(w string) c14Obj {
+	pos := 0
+	var term func() c14Obj
+	term = func() c14Obj {
+		switch ch := w[pos]; ch {
+		case 'n':
+			pos++
+			return c14Nil
+		case 't':
+			pos++
+			return c14Obj{k: 't'}
+		case '(':
+			pos++
+			a := term()
+			pos++
+			d := term()
+			pos++
+			o := c14Pair(a, d)
+			o.proper = d.k == 'n' || d.proper
+			return o
+		default:
+			start := pos + 1
+			pos++
+			for pos < len(w) && (w[pos] == '-' || w[pos] >= '0' && w[pos] <= '9' || ch == 'y' && w[pos] >= 'a' && w[pos] <= 'f') {
+				pos++
+			}
+			body := w[start:pos]
+			switch ch {
+			case 'i':
+				var n int
+				_, _ = fmt.Sscanf(body, "%d", &n)
+				return c14Int(n)
+			case 'c':
+				var n int
+				_, _ = fmt.Sscanf(body, "%d", &n)
+				return c14Chr(rune(n))
+			}
+			return c14Sym(lib.Unhex(body))
+		}
+	}
+	return term()
+}
 
 var c14Nil = c14Obj{k: 'n'}
 
@@ -66,12 +132,20 @@ func (o c14Obj) lisp() string {
 	case 'c':
 		return "#\\" + string(rune(o.i))
 	}
+	if o.proper {
+		parts := []string{}
+		for _, e := range o.listElems() {
+			parts = append(parts, e.lisp())
+		}
+		return "(list " + strings.Join(parts, " ") + ")"
+	}
 	return "(cons " + o.a.lisp() + " " + o.d.lisp() + ")"
 }
 
 type c14Seq struct {
 	kind  string // list | vector | string | nil (the empty list written as nil)
 	elems []c14Obj
+	tname string // element type (for drawing the variant used by the re-evaluation)
 }
 
 func (s c14Seq) wire() string {
@@ -256,24 +330,62 @@ func c14Pretty(w string) string {
 // function designators: wire name -> lisp source
 
 func c14FnLisp(w string) string {
-	switch {
-	case w == "neg":
+	name, arg, hasArg := strings.Cut(w, ":")
+	q := ""
+	if hasArg && name != "ltthan" {
+		q = c14ObjFromWire(arg).lisp()
+	}
+	switch name {
+	case "neg":
 		return "'-"
-	case w == "mod2":
+	case "mod2":
 		return "(lambda (x) (mod x 2))"
-	case w == "upcase":
+	case "upcase":
 		return "'char-upcase"
-	case w == "sameparity":
+	case "sameparity":
 		return "(lambda (a b) (= (mod a 2) (mod b 2)))"
-	case strings.HasPrefix(w, "ltthan:"):
-		return "(lambda (x) (< x " + w[7:] + "))"
+	case "ltthan":
+		return "(lambda (x) (< x " + arg + "))"
+	case "eqto":
+		return "(lambda (x) (equal x " + q + "))"
+	// user lambdas that call sequence functions themselves
+	case "seqcount":
+		return "(lambda (x) (count " + q + " x))"
+	case "seqfind":
+		return "(lambda (x) (find " + q + " x))"
+	case "seqposition":
+		return "(lambda (x) (position " + q + " x))"
+	case "seqremove":
+		return "(lambda (x) (remove " + q + " x))"
+	case "seqmember":
+		return "(lambda (x) (member " + q + " x))"
+	case "seqdedup":
+		return "(lambda (x) (remove-duplicates x))"
+	case "seqreverse":
+		return "(lambda (x) (reverse x))"
+	case "seqlength":
+		return "(lambda (x) (length x))"
+	case "seqsum":
+		return "(lambda (x) (reduce '+ x))"
+	case "seqmin":
+		return "(lambda (x) (car (sort (reverse x) '<)))"
+	case "seqsubsetp":
+		return "(lambda (a b) (subsetp a b))"
+	case "seqsearch":
+		return "(lambda (a b) (search a b))"
+	case "seqsameset":
+		return "(lambda (a b) (and (subsetp a b) (subsetp b a)))"
+	case "seqsamecount":
+		return "(lambda (a b) (= (count " + q + " a) (count " + q + " b)))"
+	case "seqshorter":
+		return "(lambda (a b) (< (length a) (length b)))"
 	}
 	return "'" + w
 }
 
 // eqto needs the object for its lisp text
 func c14EqTo(o c14Obj) (wire, lisp string) {
-	return "eqto:" + o.wire(), "(lambda (x) (equal x " + o.lisp() + "))"
+	return "eqto:" + o.wire(), c14FnLisp("eqto:" + o.wire())
 }
 
 // ---------------------------------------------------------------------------------------------
@@ -294,14 +406,25 @@ var (
 		c14Pair(c14Int(1), c14Sym("b")), c14Pair(c14Int(2), c14Sym("a"))}}
 )
 
+// elements that are lists (for user lambdas that call sequence functions) and mixed atoms / nested
+// lists (for user lambdas that re-enter the enclosing call)
+var (
+	c14A, c14B  = c14Sym("a"), c14Sym("b")
+	c14TLst     = c14Type{"lst", []c14Obj{c14List(c14B), c14List(c14A, c14B), c14List(c14B, c14A, c14A), c14List(c14B, c14B)}}
+	c14TILst    = c14Type{"ilst", []c14Obj{c14List(c14Int(1)), c14List(c14Int(1), c14Int(2)), c14List(c14Int(2), c14Int(1), c14Int(1)), c14List(c14Int(0), c14Int(3))}}
+	c14TNest    = c14Type{"nest", []c14Obj{c14A, c14B, c14List(c14A, c14A), c14List(c14B, c14List(c14A, c14A), c14B)}}
+	c14TINest   = c14Type{"inest", []c14Obj{c14Int(1), c14Int(2), c14List(c14Int(1), c14Int(1)), c14List(c14Int(2), c14List(c14Int(1), c14Int(3)), c14Int(2))}}
+	c14NestKind = map[string]bool{"lst": true, "ilst": true, "nest": true, "inest": true}
+)
+
 func c14TypesFor(kind string) []c14Type {
 	switch kind {
 	case "string":
 		return []c14Type{c14TChar}
 	case "vector":
-		return []c14Type{c14TInt, c14TSym}
+		return []c14Type{c14TInt, c14TSym, c14TLst}
 	}
-	return []c14Type{c14TSym, c14TInt, c14TPair, c14TChar, c14TIPair}
+	return []c14Type{c14TSym, c14TInt, c14TPair, c14TChar, c14TIPair, c14TLst, c14TILst}
 }
 
 // keys available on an element type: wire name ("" = none) and the resulting key type
@@ -327,6 +450,97 @@ func c14Keys(t string) []c14Key {
 		return []c14Key{{"", "pair", id},
 			{"car", "sym", func(o c14Obj) c14Obj { return *o.a }},
 			{"cdr", "int", func(o c14Obj) c14Obj { return *o.d }}}
+	case "lst":
+		a := c14A
+		cnt := func(o c14Obj, x c14Obj) int {
+			n := 0
+			for _, e := range o.listElems() {
+				if e.wire() == x.wire() {
+					n++
+				}
+			}
+			return n
+		}
+		return []c14Key{{"", "lst", id},
+			{"seqcount:" + a.wire(), "int", func(o c14Obj) c14Obj { return c14Int(cnt(o, a)) }},
+			{"seqfind:" + a.wire(), "symnil", func(o c14Obj) c14Obj {
+				if cnt(o, a) > 0 {
+					return a
+				}
+				return c14Nil
+			}},
+			{"seqposition:" + a.wire(), "intnil", func(o c14Obj) c14Obj {
+				for i, e := range o.listElems() {
+					if e.wire() == a.wire() {
+						return c14Int(i)
+					}
+				}
+				return c14Nil
+			}},
+			{"seqremove:" + a.wire(), "lst", func(o c14Obj) c14Obj {
+				var out []c14Obj
+				for _, e := range o.listElems() {
+					if e.wire() != a.wire() {
+						out = append(out, e)
+					}
+				}
+				return c14List(out...)
+			}},
+			{"seqdedup", "lst", func(o c14Obj) c14Obj {
+				es := o.listElems()
+				var out []c14Obj
+				for i, e := range es {
+					later := false
+					for _, l := range es[i+1:] {
+						if l.wire() == e.wire() {
+							later = true
+						}
+					}
+					if !later {
+						out = append(out, e)
+					}
+				}
+				return c14List(out...)
+			}},
+			{"seqreverse", "lst", func(o c14Obj) c14Obj {
+				es := o.listElems()
+				var out []c14Obj
+				for i := len(es) - 1; 0 <= i; i-- {
+					out = append(out, es[i])
+				}
+				return c14List(out...)
+			}},
+			{"seqlength", "int", func(o c14Obj) c14Obj { return c14Int(len(o.listElems())) }}}
+	case "ilst":
+		return []c14Key{{"", "lst", id},
+			{"seqsum", "int", func(o c14Obj) c14Obj {
+				n := 0
+				for _, e := range o.listElems() {
+					n += int(e.i)
+				}
+				return c14Int(n)
+			}},
+			{"seqlength", "int", func(o c14Obj) c14Obj { return c14Int(len(o.listElems())) }},
+			{"seqmin", "int", func(o c14Obj) c14Obj {
+				m := 1 << 30
+				for _, e := range o.listElems() {
+					if int(e.i) < m {
+						m = int(e.i)
+					}
+				}
+				return c14Int(m)
+			}},
+			{"seqcount:i1", "int", func(o c14Obj) c14Obj {
+				n := 0
+				for _, e := range o.listElems() {
+					if e.i == 1 {
+						n++
+					}
+				}
+				return c14Int(n)
+			}}}
+	case "nest", "inest":
+		return []c14Key{{"", t, id}}
 	case "ipair":
 		return []c14Key{{"", "pair", id},
 			{"car", "int", func(o c14Obj) c14Obj { return *o.a }},
@@ -348,10 +562,19 @@ func c14Tests(k string, equivOnly bool) []string {
 			return []string{"eql", "equal", "char="}
 		}
 		return []string{"eql", "equal", "char=", "char<"}
-	case "pair":
+	case "pair", "nest", "inest":
 		return []string{"equal"}
+	case "lst":
+		if equivOnly {
+			return []string{"equal", "seqsameset", "seqsamecount:y61"}
+		}
+		return []string{"equal", "seqsameset", "seqsamecount:y61", "seqsubsetp", "seqsearch", "seqshorter"}
+	case "symnil":
+		return []string{"eq", "eql", "equal"}
+	case "intnil":
+		return []string{"eql", "equal"}
 	}
-	return []string{"eq", "equal"} // (eql 'a 'b) raises a type-error in slip: eql's own defect, not a sequence matter
+	return []string{"eq", "eql", "equal"}
 }
 
 // strict orders for sort / merge on a key type
@@ -361,6 +584,8 @@ func c14Orders(k string) []string {
 		return []string{"<", ">"}
 	case "char":
 		return []string{"char<"}
+	case "lst":
+		return []string{"seqshorter"}
 	}
 	return nil
 }
@@ -376,8 +601,13 @@ func c14Preds(k string, image []c14Obj) [][2]string {
 		add("ltthan:2")
 	case "pair":
 		add("consp")
-	case "sym":
+	case "sym", "symnil", "intnil":
 		add("null")
+	case "lst":
+		add("consp")
+		add("seqfind:y61")
+		add("seqmember:y61")
+		add("seqposition:y61")
 	}
 	for _, o := range image[:2] {
 		w, l := c14EqTo(o)
@@ -407,8 +637,10 @@ type c14Case struct {
 	Kind    string   `json:"kind"`  // kind of the (first) sequence: list | vector | string | nil
 	Keys    []string `json:"keys"`  // keywords present (sorted), decorated with the boundary class of the value
 	Class   string   `json:"class"` // input class that replaces the keyword set in the signature ("" = none)
-	Src     string   `json:"src"`   // lisp source evaluated by slip
-	Req     string   `json:"req"`   // model request
+	Src     string   `json:"src"`   // lisp source evaluated by slip: the call form is the body of a lambda that is called three times (arguments A, A, B)
+	Req     string   `json:"req"`   // model request for the arguments A
+	ReqB    string   `json:"req_b"` // model request for the arguments B (same keywords, other sequences)
+	Call    string   `json:"call"`  // the call form itself (body of the lambda), for messages
 	Want    string   `json:"want"`  // obj | seq
 	Check   string   `json:"check"` // relation checker entry ("" = compare by equality)
 	Sweep   bool     `json:"sweep"`
@@ -417,11 +649,34 @@ type c14Case struct {
 
 // c14Builder assembles source and request for one call
 type c14Builder struct {
-	fn     string
-	pos    []string // positional lisp arguments
-	kwsrc  []string // keyword lisp text, in order
-	fields []string // model fields
-	keys   []string
+	entry   string // model entry when it differs from the lisp function (nunion -> union)
+	fn      string
+	pos     []string // positional lisp arguments
+	kwsrc   []string // keyword lisp text, in order
+	fields  []string // model fields ({k} stands for the k-th sequence parameter)
+	keys    []string
+	fieldsB map[int]string      // fields whose value differs for the arguments B (index into fields)
+	scal    [][2]string         // scalar parameters k1, k2 … (lisp text for the arguments A and B)
+	seqs    []c14Seq            // sequence parameters s1, s2 … (arguments A)
+	vary    func(c14Seq) c14Seq // draws the variant B of a sequence parameter
+	post    func(c14Seq) c14Seq // invariant the function needs of its sequences (merge: sorted)
+}
+
+// seq registers a sequence parameter: the call form refers to it as a variable of the enclosing lambda
+func (b *c14Builder) seq(field string, s c14Seq) {
+	b.seqs = append(b.seqs, s)
+	k := len(b.seqs)
+	b.pos = append(b.pos, fmt.Sprintf("s%d", k))
+	if field != "" {
+		b.fields = append(b.fields, fmt.Sprintf("%s={%d}", field, k))
+	}
+}
+
+// seqRef registers a sequence parameter and returns its variable name and wire placeholder
+func (b *c14Builder) seqRef(s c14Seq) (string, string) {
+	b.seqs = append(b.seqs, s)
+	k := len(b.seqs)
+	return fmt.Sprintf("s%d", k), fmt.Sprintf("{%d}", k)
 }
 
 func (b *c14Builder) arg(lisp string, field string) {
@@ -439,6 +694,34 @@ func (b *c14Builder) kw(name, lisp, field string) {
 	b.keys = append(b.keys, name)
 }
 
+// scalar registers a scalar parameter of the enclosing lambda (a keyword value, the item) whose value
+// is lispA in the first two evaluations and lispB in the third; returns the variable name
+func (b *c14Builder) scalar(lispA, fieldA, lispB, fieldB string) string {
+	b.scal = append(b.scal, [2]string{lispA, lispB})
+	if fieldA != "" || fieldB != "" {
+		b.fields = append(b.fields, fieldA)
+		if fieldB != fieldA {
+			if b.fieldsB == nil {
+				b.fieldsB = map[int]string{}
+			}
+			b.fieldsB[len(b.fields)-1] = fieldB
+		}
+	}
+	return fmt.Sprintf("k%d", len(b.scal))
+}
+
+// kwVar: a keyword whose value is a scalar parameter (A and B values of the same boundary class)
+func (b *c14Builder) kwVar(name, token, lispA, fieldA, lispB, fieldB string) {
+	v := b.scalar(lispA, fieldA, lispB, fieldB)
+	b.kwsrc = append(b.kwsrc, ":"+name+" "+v)
+	b.keys = append(b.keys, token)
+}
+
+// argVar: a positional scalar argument (item, start of subseq …) as a parameter
+func (b *c14Builder) argVar(lispA, fieldA, lispB, fieldB string) {
+	b.pos = append(b.pos, b.scalar(lispA, fieldA, lispB, fieldB))
+}
+
 // kwTok: like kw, with a boundary-decorated token for the signature (start@len, end@nil, count@neg…)
 func (b *c14Builder) kwTok(name, token, lisp, field string) {
 	b.kw(name, lisp, field)
@@ -448,9 +731,58 @@ func (b *c14Builder) kwTok(name, token, lisp, field string) {
 func (b *c14Builder) done(kind, want, check string, sweep bool) c14Case {
 	keys := append([]string{}, b.keys...)
 	sort.Strings(keys)
-	src := "(" + b.fn + " " + strings.Join(append(append([]string{}, b.pos...), b.kwsrc...), " ") + ")"
-	req := "seq " + b.fn + " " + strings.Join(b.fields, " ")
-	return c14Case{Fn: b.fn, Kind: kind, Keys: keys, Src: src, Req: strings.TrimSpace(req), Want: want, Check: check, Sweep: sweep}
+	call := "(" + b.fn + " " + strings.Join(append(append([]string{}, b.pos...), b.kwsrc...), " ") + ")"
+	entry := b.fn
+	if b.entry != "" {
+		entry = b.entry
+	}
+	var fa, fb []string
+	for i, fld := range b.fields {
+		fbv := fld
+		if v, ok := b.fieldsB[i]; ok {
+			fbv = v
+		}
+		if fld != "" {
+			fa = append(fa, fld)
+		}
+		if fbv != "" {
+			fb = append(fb, fbv)
+		}
+	}
+	var params, argsA, argsB []string
+	reqA := strings.TrimSpace("seq " + entry + " " + strings.Join(fa, " "))
+	reqB := strings.TrimSpace("seq " + entry + " " + strings.Join(fb, " "))
+	for i, a := range b.seqs {
+		bv := a
+		if b.vary != nil {
+			bv = b.vary(a)
+		}
+		if b.post != nil {
+			bv = b.post(bv)
+		}
+		params = append(params, fmt.Sprintf("s%d", i+1))
+		argsA = append(argsA, a.lisp())
+		argsB = append(argsB, bv.lisp())
+		ph := fmt.Sprintf("{%d}", i+1)
+		reqA = strings.ReplaceAll(reqA, ph, a.wire())
+		reqB = strings.ReplaceAll(reqB, ph, bv.wire())
+	}
+	pass := ""
+	for i, sc := range b.scal {
+		params = append(params, fmt.Sprintf("k%d", i+1))
+		argsA = append(argsA, sc[0])
+		argsB = append(argsB, sc[1])
+		pass += fmt.Sprintf(" k%d", i+1)
+	}
+	// a user function that re-enters the form hands the scalar parameters on unchanged
+	call = strings.ReplaceAll(call, "§K§", pass)
+	ca := "(funcall f " + strings.Join(argsA, " ") + ")"
+	cb := "(funcall f " + strings.Join(argsB, " ") + ")"
+	// the call form is compiled once (body of the lambda) and evaluated three times: twice with the
+	// same arguments, once with other sequences and other keyword values; `f` is visible in the body so that user functions
+	// can re-enter the very same form
+	src := "(let ((f nil)) (setq f (lambda (" + strings.Join(params, " ") + ") " + call + ")) (list " + ca + " " + ca + " " + cb + "))"
+	return c14Case{Fn: b.fn, Kind: kind, Keys: keys, Src: src, Call: call + " with " + strings.Join(argsA, " "), Req: reqA, ReqB: reqB, Want: want, Check: check, Sweep: sweep}
 }
 
 // chooser: how keyword values and operands are picked. The sweep enumerates (deterministic product),
@@ -577,7 +909,7 @@ func c14Entry(fn string) string {
 // building one call of a function
 
 func c14RandomSeq(p c14Pick, t c14Type, kind string, n int) c14Seq {
-	s := c14Seq{kind: kind}
+	s := c14Seq{kind: kind, tname: t.name}
 	for i := 0; i < n; i++ {
 		s.elems = append(s.elems, t.alpha[p.n(len(t.alpha))])
 	}
@@ -596,7 +928,13 @@ func c14Has(set []string, k string) bool {
 // c14Bounds adds :start/:end style keywords (names given) for a sequence of length n. sweepVals
 // restricts the candidates to the boundary values.
 func c14Bounds(b *c14Builder, p c14Pick, use []string, startName, endName string, n int, sweep bool) (int, int) {
-	start := 0
+	return c14BoundsV(b, p, use, startName, endName, n, sweep, !sweep)
+}
+
+// c14BoundsV: varyB = the third evaluation gets other in-range values of the same boundary class
+// (the sequences of the third evaluation have the same length when bounds are present)
+func c14BoundsV(b *c14Builder, p c14Pick, use []string, startName, endName string, n int, sweep bool, varyB bool) (int, int) {
+	start, startB := 0, 0
 	end := n
 	if c14Has(use, startName) {
 		cands := []int{}
@@ -614,11 +952,14 @@ func c14Bounds(b *c14Builder, p c14Pick, use []string, startName, endName string
 			}
 		}
 		start = cands[p.n(len(cands))]
+		startB = start
 		tok := startName
 		if start == n {
 			tok += "@len"
+		} else if varyB {
+			startB = p.n(n)
 		}
-		b.kwTok(startName, tok, fmt.Sprint(start), fmt.Sprintf("%s=%d", startName, start))
+		b.kwVar(startName, tok, fmt.Sprint(start), fmt.Sprintf("%s=%d", startName, start), fmt.Sprint(startB), fmt.Sprintf("%s=%d", startName, startB))
 	}
 	if c14Has(use, endName) {
 		cands := []int{-1} // -1 = nil
@@ -637,13 +978,18 @@ func c14Bounds(b *c14Builder, p c14Pick, use []string, startName, endName string
 		}
 		e := cands[p.n(len(cands))]
 		if e < 0 {
-			b.kwTok(endName, endName+"@nil", "nil", "")
+			b.kwVar(endName, endName+"@nil", "nil", "", "nil", "")
 		} else {
 			tok := endName
+			eB := e
 			if e == n {
 				tok += "@len"
+			} else if varyB && startB < n {
+				eB = startB + p.n(n-startB)
+			} else if eB < startB {
+				eB = startB
 			}
-			b.kwTok(endName, tok, fmt.Sprint(e), fmt.Sprintf("%s=%d", endName, e))
+			b.kwVar(endName, tok, fmt.Sprint(e), fmt.Sprintf("%s=%d", endName, e), fmt.Sprint(eB), fmt.Sprintf("%s=%d", endName, eB))
 			end = e
 		}
 	}
@@ -660,6 +1006,63 @@ func c14Build(f c14Fun, kind string, t c14Type, seqLen int, use []string, p c14P
 		}
 		return c14RandomSeq(p, t, kind, n)
 	}
+	// self role: one user function of the call re-enters the call itself on nested lists
+	self := ""
+	var use2 []string
+	for _, u := range use {
+		if strings.HasPrefix(u, "self:") {
+			self = u[5:]
+		} else {
+			use2 = append(use2, u)
+		}
+	}
+	use = use2
+	bounded := false
+	for _, u := range use {
+		if strings.HasPrefix(u, "start") || strings.HasPrefix(u, "end") {
+			bounded = true
+		}
+	}
+	if self != "" {
+		if (t.name != "nest" && t.name != "inest") || bounded || kind == "string" || !c14SelfOK(f, self) {
+			return c14Case{}, false
+		}
+		if self == "key" && c14Has(use, "key") || (self == "test" || self == "test1") && (c14Has(use, "test") || c14Has(use, "testnot")) {
+			return c14Case{}, false
+		}
+	} else if t.name == "nest" || t.name == "inest" {
+		return c14Case{}, false
+	}
+	// the variant B of a sequence parameter for the third evaluation of the call form: same kind and
+	// element type; same length when bounds (or length-dependent input classes) are involved
+	fixedLen := bounded || f.fam == "reduce" || f.fam == "fill" || f.fam == "subseq"
+	b.vary = func(a c14Seq) c14Seq {
+		if sweep {
+			r := c14Seq{kind: a.kind, tname: a.tname}
+			for i := len(a.elems) - 1; 0 <= i; i-- {
+				r.elems = append(r.elems, a.elems[i])
+			}
+			return r
+		}
+		n := len(a.elems)
+		if !fixedLen && p.n(2) == 0 {
+			n = p.n(9)
+		}
+		return c14RandomSeq(p, c14TypeByName(a.tname), a.kind, n)
+	}
+	selfLambda := func(base string) string {
+		atom := "x"
+		if base != "" {
+			atom = "(funcall " + c14FnLisp(base) + " x)"
+		}
+		return "(lambda (x) (if (consp x) (funcall f x§K§) " + atom + "))"
+	}
+	selfBases := func() []string {
+		if t.name == "inest" {
+			return []string{"evenp", "plusp", "ltthan:2"}
+		}
+		return []string{"eqto:y61", "null"}
+	}
 	// key
 	keys := c14Keys(t.name)
 	key := keys[0]
@@ -671,11 +1074,23 @@ func c14Build(f c14Fun, kind string, t c14Type, seqLen int, use []string, p c14P
 	}
 	image := c14Image(t, key)
 	addKey := func() {
+		if self == "key" {
+			b.kwTok("key", "key@self", selfLambda(""), "self=key")
+			return
+		}
 		if key.wire != "" {
 			b.kw("key", c14FnLisp(key.wire), "key="+key.wire)
 		}
 	}
 	addTest := func(equivOnly bool) bool {
+		if self == "test" {
+			b.kwTok("test", "test@self", "(lambda (a b) (if (and (consp a) (consp b)) (funcall f a b§K§) (equal a b)))", "self=test")
+			return true
+		}
+		if self == "test1" {
+			b.kwTok("test", "test@self", "(lambda (a b) (if (and (consp a) (consp b)) (equal (funcall f a§K§) (funcall f b§K§)) (equal a b)))", "self=test1")
+			return true
+		}
 		for _, name := range []string{"test", "testnot"} {
 			if c14Has(use, name) {
 				ts := c14Tests(key.to, equivOnly)
@@ -694,11 +1109,16 @@ func c14Build(f c14Fun, kind string, t c14Type, seqLen int, use []string, p c14P
 	}
 	fromEnd := func() {
 		if c14Has(use, "fromend") {
-			if sweep || p.n(4) != 0 {
-				b.kw("from-end", "t", "fromend=t")
-			} else {
-				b.kw("from-end", "nil", "fromend=n")
+			if sweep {
+				b.kwVar("from-end", "from-end", "t", "fromend=t", "t", "fromend=t")
+				return
 			}
+			vals := [][2]string{{"t", "fromend=t"}, {"nil", "fromend=n"}}
+			va, vb := vals[0], vals[p.n(2)]
+			if p.n(4) == 0 {
+				va = vals[1]
+			}
+			b.kwVar("from-end", "from-end", va[0], va[1], vb[0], vb[1])
 		}
 	}
 	switch f.fam {
@@ -714,13 +1134,22 @@ func c14Build(f c14Fun, kind string, t c14Type, seqLen int, use []string, p c14P
 		}
 		if f.mode == "item" {
 			item := image[p.n(len(image))]
-			b.arg(item.lisp(), "item="+item.wire())
+			itemB := item
+			if !sweep {
+				itemB = image[p.n(len(image))]
+			}
+			b.argVar(item.lisp(), "item="+item.wire(), itemB.lisp(), "item="+itemB.wire())
+		} else if self == "pred" {
+			bs := selfBases()
+			bw := bs[p.n(len(bs))]
+			b.arg(selfLambda(bw), "self=pred base="+bw)
+			b.keys = append(b.keys, "pred@self")
 		} else {
 			ps := c14Preds(key.to, image)
 			pr := ps[p.n(len(ps))]
 			b.arg(pr[1], "pred="+pr[0])
 		}
-		b.arg(s.lisp(), "seq="+s.wire())
+		b.seq("seq", s)
 		addKey()
 		addTest(false)
 		c14Bounds(b, p, use, "start", "end", len(s.elems), sweep)
@@ -732,13 +1161,17 @@ func c14Build(f c14Fun, kind string, t c14Type, seqLen int, use []string, p c14P
 			cv := cands[p.n(len(cands))]
 			switch cv {
 			case "nil":
-				b.kwTok("count", "count@nil", "nil", "")
+				b.kwVar("count", "count@nil", "nil", "", "nil", "")
 			case "-1":
-				b.kwTok("count", "count@neg", cv, "count="+cv)
+				b.kwVar("count", "count@neg", cv, "count="+cv, cv, "count="+cv)
 			case "0":
-				b.kwTok("count", "count@0", cv, "count="+cv)
+				b.kwVar("count", "count@0", cv, "count="+cv, cv, "count="+cv)
 			default:
-				b.kw("count", cv, "count="+cv)
+				cb := cv
+				if !sweep {
+					cb = []string{"1", "2", "3"}[p.n(3)]
+				}
+				b.kwVar("count", "count", cv, "count="+cv, cb, "count="+cb)
 			}
 		}
 		fromEnd()
@@ -749,7 +1182,7 @@ func c14Build(f c14Fun, kind string, t c14Type, seqLen int, use []string, p c14P
 		return b.done(kind, want, "", sweep), true
 	case "dups":
 		s := mkSeq(seqLen)
-		b.arg(s.lisp(), "seq="+s.wire())
+		b.seq("seq", s)
 		addKey()
 		addTest(true)
 		c14Bounds(b, p, use, "start", "end", len(s.elems), sweep)
@@ -788,12 +1221,17 @@ func c14Build(f c14Fun, kind string, t c14Type, seqLen int, use []string, p c14P
 		if f.mode == "item" {
 			item := tgtImage[p.n(len(tgtImage))]
 			b.arg(item.lisp(), "item="+item.wire())
+		} else if self == "pred" {
+			bs := selfBases()
+			bw := bs[p.n(len(bs))]
+			b.arg(selfLambda(bw), "self=pred base="+bw)
+			b.keys = append(b.keys, "pred@self")
 		} else {
 			ps := c14Preds(key.to, tgtImage)
 			pr := ps[p.n(len(ps))]
 			b.arg(pr[1], "pred="+pr[0])
 		}
-		b.arg(s.lisp(), "seq="+s.wire())
+		b.seq("seq", s)
 		addKey()
 		addTest(false)
 		return b.done(kind, "obj", "", sweep), true
@@ -804,7 +1242,7 @@ func c14Build(f c14Fun, kind string, t c14Type, seqLen int, use []string, p c14P
 			s1 = c14SweepSeq(t, kind, p)
 		} else {
 			// mostly a window of s2 (possibly perturbed) so that matches happen
-			s1 = c14Seq{kind: kind}
+			s1 = c14Seq{kind: kind, tname: t.name}
 			if len(s2.elems) > 0 && p.n(4) != 0 {
 				a := p.n(len(s2.elems) + 1)
 				z := a + p.n(len(s2.elems)-a+1)
@@ -819,8 +1257,8 @@ func c14Build(f c14Fun, kind string, t c14Type, seqLen int, use []string, p c14P
 				s1, s2 = s2, s1
 			}
 		}
-		b.arg(s1.lisp(), "seq="+s1.wire())
-		b.arg(s2.lisp(), "seq2="+s2.wire())
+		b.seq("seq", s1)
+		b.seq("seq2", s2)
 		addKey()
 		addTest(f.fam == "search" && false)
 		c14Bounds(b, p, use, "start1", "end1", len(s1.elems), sweep)
@@ -829,21 +1267,29 @@ func c14Build(f c14Fun, kind string, t c14Type, seqLen int, use []string, p c14P
 		return b.done(kind, "obj", "", sweep), true
 	case "subseq":
 		s := mkSeq(seqLen)
-		b.arg(s.lisp(), "seq="+s.wire())
+		b.seq("seq", s)
 		// start and end are positional; start is required
 		n := len(s.elems)
 		start := 0
 		if c14Has(use, "start") {
 			start = p.n(n + 1)
 		}
-		b.arg(fmt.Sprint(start), fmt.Sprintf("start=%d", start))
+		startB := start
+		if !sweep {
+			startB = p.n(n + 1)
+		}
+		b.argVar(fmt.Sprint(start), fmt.Sprintf("start=%d", start), fmt.Sprint(startB), fmt.Sprintf("start=%d", startB))
 		b.keys = append(b.keys, "start")
 		if c14Has(use, "end") {
 			e := start + p.n(n-start+2) - 1
 			if e < start {
-				b.arg("nil", "")
+				b.argVar("nil", "", "nil", "")
 			} else {
-				b.arg(fmt.Sprint(e), fmt.Sprintf("end=%d", e))
+				eB := e
+				if !sweep || eB < startB {
+					eB = startB + p.n(n-startB+1)
+				}
+				b.argVar(fmt.Sprint(e), fmt.Sprintf("end=%d", e), fmt.Sprint(eB), fmt.Sprintf("end=%d", eB))
 			}
 			b.keys = append(b.keys, "end")
 		}
@@ -854,7 +1300,7 @@ func c14Build(f c14Fun, kind string, t c14Type, seqLen int, use []string, p c14P
 		if kind != "string" && p.n(3) == 0 {
 			item = c14Sym("z")
 		}
-		b.arg(s.lisp(), "seq="+s.wire())
+		b.seq("seq", s)
 		b.arg(item.lisp(), "item="+item.wire())
 		c14Bounds(b, p, use, "start", "end", len(s.elems), sweep)
 		cs := b.done(kind, "seq", "", sweep)
@@ -870,14 +1316,14 @@ func c14Build(f c14Fun, kind string, t c14Type, seqLen int, use []string, p c14P
 		} else {
 			s2 = c14RandomSeq(p, t, kind, p.n(7))
 		}
-		b.arg(s1.lisp(), "seq="+s1.wire())
-		b.arg(s2.lisp(), "seq2="+s2.wire())
+		b.seq("seq", s1)
+		b.seq("seq2", s2)
 		c14Bounds(b, p, use, "start1", "end1", len(s1.elems), sweep)
 		c14Bounds(b, p, use, "start2", "end2", len(s2.elems), sweep)
 		return b.done(kind, "seq", "", sweep), true
 	case "reverse":
 		s := mkSeq(seqLen)
-		b.arg(s.lisp(), "seq="+s.wire())
+		b.seq("seq", s)
 		return b.done(kind, "seq", "", sweep), true
 	case "sort":
 		ords := c14Orders(key.to)
@@ -886,7 +1332,7 @@ func c14Build(f c14Fun, kind string, t c14Type, seqLen int, use []string, p c14P
 		}
 		s := mkSeq(seqLen)
 		ord := ords[p.n(len(ords))]
-		b.arg(s.lisp(), "seq="+s.wire())
+		b.seq("seq", s)
 		b.arg(c14FnLisp(ord), "pred="+ord)
 		addKey()
 		check := ""
@@ -901,36 +1347,30 @@ func c14Build(f c14Fun, kind string, t c14Type, seqLen int, use []string, p c14P
 		}
 		ord := ords[p.n(len(ords))]
 		// both inputs sorted by the predicate on the key (the language requires it)
-		mk := func() c14Seq {
-			s := mkSeq(seqLen)
-			less := func(a, c c14Obj) bool {
-				ka, kc := key.f(a), key.f(c)
-				if ord == ">" {
-					return ka.i > kc.i
-				}
-				return ka.i < kc.i
+		less := func(a, c c14Obj) bool {
+			ka, kc := key.f(a), key.f(c)
+			switch ord {
+			case ">":
+				return ka.i > kc.i
+			case "seqshorter":
+				return len(ka.listElems()) < len(kc.listElems())
 			}
+			return ka.i < kc.i
+		}
+		sorted := func(s c14Seq) c14Seq {
+			s.elems = append([]c14Obj{}, s.elems...)
 			sort.SliceStable(s.elems, func(i, j int) bool { return less(s.elems[i], s.elems[j]) })
 			return s
 		}
-		s1, s2 := mk(), mk()
+		b.post = sorted
+		s1, s2 := sorted(mkSeq(seqLen)), sorted(mkSeq(seqLen))
 		if !sweepSeqs {
-			s2 = c14RandomSeq(p, t, kind, p.n(6))
-			tmp := s2
-			less := func(a, c c14Obj) bool {
-				ka, kc := key.f(a), key.f(c)
-				if ord == ">" {
-					return ka.i > kc.i
-				}
-				return ka.i < kc.i
-			}
-			sort.SliceStable(tmp.elems, func(i, j int) bool { return less(tmp.elems[i], tmp.elems[j]) })
-			s2 = tmp
+			s2 = sorted(c14RandomSeq(p, t, kind, p.n(6)))
 		}
 		rt := kind
 		b.arg("'"+rt, "rtype="+rt)
-		b.arg(s1.lisp(), "seq="+s1.wire())
-		b.arg(s2.lisp(), "seq2="+s2.wire())
+		b.seq("seq", s1)
+		b.seq("seq2", s2)
 		b.arg(c14FnLisp(ord), "pred="+ord)
 		addKey()
 		return b.done(kind, "seq", "", sweep), true
@@ -942,8 +1382,8 @@ func c14Build(f c14Fun, kind string, t c14Type, seqLen int, use []string, p c14P
 		} else {
 			s2 = c14RandomSeq(p, t, kind, p.n(6))
 		}
-		b.arg(s1.lisp(), "seq="+s1.wire())
-		b.arg(s2.lisp(), "seq2="+s2.wire())
+		b.seq("seq", s1)
+		b.seq("seq2", s2)
 		addKey()
 		base := c14Entry(f.name)
 		if (base == "union" || base == "intersection") && c14Has(use, "testnot") {
@@ -955,15 +1395,21 @@ func c14Build(f c14Fun, kind string, t c14Type, seqLen int, use []string, p c14P
 		if base == "subsetp" {
 			return b.done(kind, "obj", "", sweep), true
 		}
-		cs := b.done(kind, "seq", base+"-check", sweep)
-		cs.Req = "seq " + base + strings.TrimPrefix(cs.Req, "seq "+f.name)
-		return cs, true
+		b.entry = base
+		return b.done(kind, "seq", base+"-check", sweep), true
 	case "quant", "mapcar", "map":
 		nseq := 1 + p.n(2)
 		fnw := ""
 		var seqs []c14Seq
 		tt := t
-		if nseq == 2 || f.fam != "quant" {
+		if self == "fn" {
+			nseq = 1
+			bs := []string{"null", "list"}
+			if t.name == "inest" {
+				bs = []string{"1+", "neg", "evenp"}
+			}
+			fnw = bs[p.n(len(bs))]
+		} else if nseq == 2 || f.fam != "quant" {
 			// functions of one or two arguments on integers / characters / pairs
 			switch t.name {
 			case "int":
@@ -983,6 +1429,18 @@ func c14Build(f c14Fun, kind string, t c14Type, seqLen int, use []string, p c14P
 					fnw = []string{"list", "cons", "equal"}[p.n(3)]
 				} else {
 					fnw = []string{"car", "cdr", "consp", "list"}[p.n(4)]
+				}
+			case "lst":
+				if nseq == 2 {
+					fnw = []string{"seqsubsetp", "seqsearch", "seqshorter", "equal", "list"}[p.n(5)]
+				} else {
+					fnw = []string{"seqlength", "seqreverse", "seqcount:y61", "seqfind:y61", "seqdedup"}[p.n(5)]
+				}
+			case "ilst":
+				if nseq == 2 {
+					fnw = []string{"seqsubsetp", "seqshorter", "equal"}[p.n(3)]
+				} else {
+					fnw = []string{"seqsum", "seqlength", "seqreverse"}[p.n(3)]
 				}
 			default:
 				if nseq == 2 {
@@ -1027,8 +1485,9 @@ func c14Build(f c14Fun, kind string, t c14Type, seqLen int, use []string, p c14P
 		}
 		var wires, lisps []string
 		for _, s := range seqs {
-			wires = append(wires, s.wire())
-			lisps = append(lisps, s.lisp())
+			lv, wv := b.seqRef(s)
+			wires = append(wires, wv)
+			lisps = append(lisps, lv)
 		}
 		want := "obj"
 		if f.fam == "map" {
@@ -1036,6 +1495,9 @@ func c14Build(f c14Fun, kind string, t c14Type, seqLen int, use []string, p c14P
 			rts := []string{"list", "vector", "nil"}
 			if fnw == "upcase" {
 				rts = append(rts, "string")
+			}
+			if self == "fn" {
+				rts = []string{"list"} // a nested call hands a list back to the enclosing one
 			}
 			rt := rts[p.n(len(rts))]
 			b.arg("'"+rt, "rtype="+rt)
@@ -1048,7 +1510,12 @@ func c14Build(f c14Fun, kind string, t c14Type, seqLen int, use []string, p c14P
 		if f.fam == "mapcar" {
 			want = "seq"
 		}
-		b.arg(fnl, "fn="+fnw)
+		if self == "fn" {
+			b.arg(selfLambda(fnw), "self=fn base="+fnw)
+			b.keys = append(b.keys, "fn@self")
+		} else {
+			b.arg(fnl, "fn="+fnw)
+		}
 		b.pos = append(b.pos, lisps...)
 		b.fields = append(b.fields, "seqs="+strings.Join(wires, ";"))
 		return b.done(kind, want, "", sweep), true
@@ -1063,9 +1530,9 @@ func c14Build(f c14Fun, kind string, t c14Type, seqLen int, use []string, p c14P
 		}
 		fnw := fns[p.n(len(fns))]
 		b.arg("", "")
-		b.arg(s.lisp(), "seq="+s.wire())
+		b.seq("seq", s)
 		addKey()
-		st, en := c14Bounds(b, p, use, "start", "end", len(s.elems), sweep)
+		st, en := c14BoundsV(b, p, use, "start", "end", len(s.elems), sweep, false) // emptiness is an input class: same bounds
 		fromEnd()
 		if c14Has(use, "init") {
 			iv := image[p.n(len(image))]
@@ -1116,8 +1583,9 @@ func c14Build(f c14Fun, kind string, t c14Type, seqLen int, use []string, p c14P
 					return p.n(5)
 				}())
 			}
-			wires = append(wires, s.wire())
-			lisps = append(lisps, s.lisp())
+			lv, wv := b.seqRef(s)
+			wires = append(wires, wv)
+			lisps = append(lisps, lv)
 		}
 		rts := []string{"list", "vector"}
 		if allChar {
@@ -1132,11 +1600,50 @@ func c14Build(f c14Fun, kind string, t c14Type, seqLen int, use []string, p c14P
 	return c14Case{}, false
 }
 
+// c14SelfOK: which user function of a function can re-enter the call (see c14Build)
+func c14SelfOK(f c14Fun, role string) bool {
+	base := strings.TrimSuffix(strings.TrimSuffix(f.name, "-if-not"), "-if")
+	if strings.HasPrefix(base, "n") || strings.HasPrefix(base, "delete") {
+		// a destructive function re-entered on a nested element may destroy that element, which
+		// is still part of the outer result: the language leaves the outer result open
+		return false
+	}
+	switch role {
+	case "key":
+		switch f.fam {
+		case "scan", "scanc", "dups", "reduce":
+			return true
+		case "alist":
+			return base == "member"
+		}
+	case "pred":
+		return f.mode == "if" && (f.fam == "scan" || f.fam == "scanc" || base == "member")
+	case "fn":
+		return f.fam == "quant" || f.fam == "mapcar" || f.fam == "map"
+	case "test":
+		return f.fam == "search" || f.fam == "mismatch" || base == "subsetp" || base == "set-difference" || base == "nset-difference"
+	case "test1":
+		// remove-duplicates: the test re-enters the call on each of its arguments (with an item
+		// the recursion on the constant item would not be well-founded)
+		return f.fam == "dups"
+	}
+	return false
+}
+
+func c14TypeByName(n string) c14Type {
+	for _, t := range []c14Type{c14TSym, c14TInt, c14TChar, c14TPair, c14TIPair, c14TLst, c14TILst, c14TNest, c14TINest} {
+		if t.name == n {
+			return t
+		}
+	}
+	return c14TSym
+}
+
 // the fixed sequences of the sweep (x0..x3 = the alphabet of the element type)
 func c14SweepSeq(t c14Type, kind string, p c14Pick) c14Seq {
 	shapes := [][]int{{}, {0}, {1, 0, 0}, {0, 1, 0, 2, 0}, {1, 2}}
 	sh := shapes[p.n(len(shapes))]
-	s := c14Seq{kind: kind}
+	s := c14Seq{kind: kind, tname: t.name}
 	for _, i := range sh {
 		s.elems = append(s.elems, t.alpha[i])
 	}
@@ -1264,7 +1771,8 @@ func c14AvoidClass(listed []c14Listed, cs c14Case) bool {
 
 type c14Obs struct {
 	ok    bool
-	wire  string
+	wires []string // the results of the three evaluations of the call form (arguments A, A, B)
+	wire  string   // the one under comparison
 	class string
 	msg   string
 	fault bool
@@ -1275,14 +1783,56 @@ func c14Impl(scope *slip.Scope, cs c14Case) c14Obs {
 	if !o.Ok {
 		return c14Obs{class: o.Class, msg: o.Msg, fault: o.GoFault}
 	}
-	return c14Obs{ok: true, wire: c14Wire(o.Value, cs.Want)}
+	l, _ := o.Value.(slip.List)
+	if len(l) != 3 {
+		return c14Obs{class: "harness", msg: "the re-evaluation form did not return three results: " + o.Text}
+	}
+	obs := c14Obs{ok: true}
+	for _, v := range l {
+		obs.wires = append(obs.wires, c14Wire(v, cs.Want))
+	}
+	obs.wire = obs.wires[0]
+	return obs
 }
 
 func (o c14Obs) String() string {
 	if o.ok {
+		if len(o.wires) == 3 {
+			return "ok " + o.wire + "   [calls 1..3: " + strings.Join(o.wires, " | ") + "]"
+		}
 		return "ok " + o.wire
 	}
 	return "err " + o.class + " (" + o.msg + ")"
+}
+
+// c14AspectAll compares the three evaluations (arguments A, A, B) with the model's answers for A
+// and B. The aspect of the first disagreeing call is reported; a disagreement that only shows from
+// the second evaluation on (state kept between calls, re-entrancy) is marked @call<n>.
+func c14AspectAll(cs c14Case, obs c14Obs, modelA, modelB string, checks [3]string) (string, int) {
+	if !obs.ok {
+		if !strings.HasPrefix(modelA, "ok ") || !strings.HasPrefix(modelB, "ok ") {
+			if obs.fault {
+				return "go-fault", 0
+			}
+			return "", 0
+		}
+		return c14Aspect(cs, obs, modelA, ""), 0
+	}
+	for j := 0; j < 3; j++ {
+		m := modelA
+		if j == 2 {
+			m = modelB
+		}
+		a := c14Aspect(cs, c14Obs{ok: true, wire: obs.wires[j]}, m, checks[j])
+		if a != "" {
+			if j == 1 {
+				// the same arguments gave the right answer at the first evaluation: the form keeps state
+				a += "@reeval"
+			}
+			return a, j
+		}
+	}
+	return "", 0
 }
 
 // c14Aspect compares one observation with the model reply; "" = agreement
@@ -1325,14 +1875,39 @@ func c14Aspect(cs c14Case, obs c14Obs, model string, checkReply string) string {
 	return "wrong-value"
 }
 
-func c14CheckReq(cs c14Case, obs c14Obs) string {
+func c14CheckReq(cs c14Case, req, wire string) string {
 	// "seq <entry> fields…" -> "seq <check> fields… result=<wire>"
-	w := strings.SplitN(cs.Req, " ", 3)
+	w := strings.SplitN(req, " ", 3)
 	rest := ""
 	if len(w) > 2 {
 		rest = w[2]
 	}
-	return "seq " + cs.Check + " " + rest + " result=" + obs.wire
+	return "seq " + cs.Check + " " + rest + " result=" + wire
+}
+
+// c14Checks runs the relation checker on each of the three results
+func c14Checks(c *lib.Ctx, cs c14Case, obs c14Obs, modelA, modelB string) [3]string {
+	var out [3]string
+	if cs.Check == "" || !obs.ok {
+		return out
+	}
+	var reqs []string
+	var idx []int
+	for j, w := range obs.wires {
+		req, m := cs.Req, modelA
+		if j == 2 {
+			req, m = cs.ReqB, modelB
+		}
+		if strings.HasPrefix(w, "?") || !strings.HasPrefix(m, "ok ") {
+			continue
+		}
+		reqs = append(reqs, c14CheckReq(cs, req, w))
+		idx = append(idx, j)
+	}
+	for k, r := range c.Model(reqs) {
+		out[idx[k]] = r
+	}
+	return out
 }
 
 func c14Nontrivial(cs c14Case) bool {
@@ -1363,24 +1938,27 @@ func c14Replay(c *lib.Ctx) {
 		return
 	}
 	gs := func(k string) string { s, _ := raw[k].(string); return s }
-	cs := c14Case{Fn: gs("fn"), Kind: gs("kind"), Src: gs("src"), Req: gs("req"), Want: gs("want"), Check: gs("check")}
+	cs := c14Case{Fn: gs("fn"), Kind: gs("kind"), Src: gs("src"), Req: gs("req"), ReqB: gs("req_b"), Call: gs("call"), Class: gs("class"), Want: gs("want"), Check: gs("check")}
 	if ks, ok := raw["keys"].([]any); ok {
 		for _, k := range ks {
 			cs.Keys = append(cs.Keys, fmt.Sprint(k))
 		}
 	}
 	obs := c14Impl(slip.NewScope(), cs)
-	model := c.Model([]string{cs.Req})[0]
-	check := ""
-	if cs.Check != "" && obs.ok && strings.HasPrefix(obs.wire, "?") == false {
-		check = c.Model([]string{c14CheckReq(cs, obs)})[0]
+	models := c.Model([]string{cs.Req, cs.ReqB})
+	checks := c14Checks(c, cs, obs, models[0], models[1])
+	fmt.Printf("replay %s\n  (the call form is compiled once and evaluated three times: arguments A, A, B)\n  source        : %s\n  implementation: %s\n", cs.Call, cs.Src, obs)
+	if obs.ok {
+		for j, w := range obs.wires {
+			fmt.Printf("    call %d = %s\n", j+1, c14Pretty("ok "+w))
+		}
 	}
-	fmt.Printf("replay %s\n  implementation: %s   = %s\n  model         : %s   = %s\n", cs.Src, obs, c14Pretty(obs.String()), model, c14Pretty(model))
+	fmt.Printf("  model (A)     : %s   = %s\n  model (B)     : %s   = %s\n", models[0], c14Pretty(models[0]), models[1], c14Pretty(models[1]))
 	if cs.Check != "" {
-		fmt.Printf("  relation %s on the implementation's result: %s\n", cs.Check, check)
+		fmt.Printf("  relation %s on the implementation's results: %v\n", cs.Check, checks)
 	}
-	if a := c14Aspect(cs, obs, model, check); a != "" {
-		c.Report(c14Signature(cs, a), false, map[string]any{"input": cs.Src, "observed": obs.String(), "expected": model})
+	if a, _ := c14AspectAll(cs, obs, models[0], models[1], checks); a != "" {
+		c.Report(c14Signature(cs, a), false, map[string]any{"input": cs.Call, "observed": obs.String(), "expected": models[0] + " | " + models[0] + " | " + models[1]})
 	}
 }
 
@@ -1416,6 +1994,16 @@ func runC14(c *lib.Ctx) {
 					}
 				}
 				for _, use := range subsets {
+					// pairs of keywords: on the plain element types only (symbols, integers;
+					// characters on strings; pair types when :key is one of the two); the other
+					// element types are swept with at most one keyword
+					if len(use) == 2 {
+						plain := t.name == "sym" || t.name == "int" || kind == "string"
+						keyed := c14Has(use, "key") && (t.name == "pair" || t.name == "ipair")
+						if !plain && !keyed {
+							continue
+						}
+					}
 					en := &c14Enum{}
 					for n := 0; n < 400; n++ {
 						en.pos = 0
@@ -1426,6 +2014,40 @@ func runC14(c *lib.Ctx) {
 						}
 						if !en.next() {
 							break
+						}
+					}
+				}
+			}
+		}
+		// user functions that re-enter the call itself on nested lists (self roles): bare call and
+		// every single further keyword
+		for _, role := range []string{"key", "pred", "fn", "test", "test1"} {
+			if !c14SelfOK(f, role) {
+				continue
+			}
+			for _, kind := range f.kinds {
+				if kind == "string" {
+					continue
+				}
+				for _, t := range []c14Type{c14TNest, c14TINest} {
+					subsets := [][]string{{"self:" + role}}
+					for _, a := range f.kws {
+						if strings.HasPrefix(a, "start") || strings.HasPrefix(a, "end") {
+							continue
+						}
+						subsets = append(subsets, []string{"self:" + role, a})
+					}
+					for _, use := range subsets {
+						en := &c14Enum{}
+						for n := 0; n < 200; n++ {
+							en.pos = 0
+							cs, ok := c14Build(f, kind, t, 0, use, en, true, true)
+							if ok && !c14Avoid(listed, cs.Fn, cs.Kind, cs.Keys, false) {
+								add(cs)
+							}
+							if !en.next() {
+								break
+							}
 						}
 					}
 				}
@@ -1451,7 +2073,7 @@ func runC14(c *lib.Ctx) {
 	nSweep := len(cases)
 
 	// --- composite: random function, kind, element type, length 0..8, any keyword subset, in-range values
-	nRandom := c.Scale(150000, 4000000)
+	nRandom := c.Scale(150000, 2500000)
 	pick := c14Rand{c.Rng}
 	for i := 0; i < nRandom; i++ {
 		f := funs[c.Rng.Intn(len(funs))]
@@ -1462,6 +2084,27 @@ func runC14(c *lib.Ctx) {
 		for _, k := range f.kws {
 			if c.Rng.Chance(40) {
 				use = append(use, k)
+			}
+		}
+		if c.Rng.Chance(20) && kind != "string" {
+			// a user function that re-enters the call itself, on nested lists
+			var roles []string
+			for _, role := range []string{"key", "pred", "fn", "test", "test1"} {
+				if c14SelfOK(f, role) {
+					roles = append(roles, role)
+				}
+			}
+			if len(roles) > 0 {
+				role := roles[c.Rng.Intn(len(roles))]
+				var keep []string
+				for _, k := range use {
+					if strings.HasPrefix(k, "start") || strings.HasPrefix(k, "end") || k == role || strings.HasPrefix(role, "test") && (k == "testnot" || k == "test") {
+						continue
+					}
+					keep = append(keep, k)
+				}
+				use = append(keep, "self:"+role)
+				t = []c14Type{c14TNest, c14TINest}[c.Rng.Intn(2)]
 			}
 		}
 		n := c.Rng.Intn(9)
@@ -1485,29 +2128,45 @@ func runC14(c *lib.Ctx) {
 	}
 	nExh := len(cases) - nSweep - nComposite
 
-	// --- run
-	reqs := make([]string, len(cases))
-	for i, cs := range cases {
-		reqs[i] = cs.Req
+	// --- run: the model answers for the arguments A and B of every case; the implementation evaluates
+	//     the call form three times (A, A, B) inside one lambda
+	reqs := make([]string, 0, 2*len(cases))
+	for _, cs := range cases {
+		reqs = append(reqs, cs.Req, cs.ReqB)
 	}
 	replies := c.Model(reqs)
 	scope := slip.NewScope()
 	obs := make([]c14Obs, len(cases))
-	var checkIdx []int
+	type chk struct{ i, j int }
+	var checkIdx []chk
 	var checkReqs []string
 	for i, cs := range cases {
 		obs[i] = c14Impl(scope, cs)
-		if cs.Check != "" && obs[i].ok && !strings.HasPrefix(obs[i].wire, "?") && strings.HasPrefix(replies[i], "ok ") {
-			checkIdx = append(checkIdx, i)
-			checkReqs = append(checkReqs, c14CheckReq(cs, obs[i]))
+		if cs.Check == "" || !obs[i].ok {
+			continue
+		}
+		for j, w := range obs[i].wires {
+			req, m := cs.Req, replies[2*i]
+			if j == 2 {
+				req, m = cs.ReqB, replies[2*i+1]
+			}
+			if strings.HasPrefix(w, "?") || !strings.HasPrefix(m, "ok ") {
+				continue
+			}
+			checkIdx = append(checkIdx, chk{i, j})
+			checkReqs = append(checkReqs, c14CheckReq(cs, req, w))
 		}
 	}
-	checkReplies := map[int]string{}
-	for j, r := range c.Model(checkReqs) {
-		checkReplies[checkIdx[j]] = r
+	checkReplies := map[int][3]string{}
+	for k, r := range c.Model(checkReqs) {
+		ck := checkIdx[k]
+		v := checkReplies[ck.i]
+		v[ck.j] = r
+		checkReplies[ck.i] = v
 	}
 	agree := 0
 	for i, cs := range cases {
+		mA, mB := replies[2*i], replies[2*i+1]
 		c.Ev.Case(cs.Src, cs.Nontriv)
 		c.Ev.Hist("fn", cs.Fn)
 		c.Ev.Hist("kind", cs.Kind)
@@ -1518,20 +2177,28 @@ func runC14(c *lib.Ctx) {
 			c.Ev.Hist("outcome", "condition:"+obs[i].class)
 		}
 		if i%(len(cases)/12+1) == 0 {
-			c.Ev.Sample(map[string]string{"case": cs.Src, "impl": obs[i].String(), "model": replies[i]})
+			c.Ev.Sample(map[string]string{"case": cs.Src, "impl": obs[i].String(), "model_A": mA, "model_B": mB})
 		}
-		a := c14Aspect(cs, obs[i], replies[i], checkReplies[i])
+		a, j := c14AspectAll(cs, obs[i], mA, mB, checkReplies[i])
 		if a == "" {
 			agree++
 			continue
 		}
-		expected := replies[i]
+		m := mA
+		if j == 2 {
+			m = mB
+		}
+		expected := mA + " | " + mA + " | " + mB
 		from := "model:seq." + c14Entry(cs.Fn)
 		if cs.Check != "" {
-			expected = "any result accepted by " + cs.Check + ", e.g. " + replies[i]
+			expected = "any result accepted by " + cs.Check + ", e.g. " + m
 		}
-		c.Report(c14Signature(cs, a), cs.Sweep, map[string]any{"input": cs.Src, "case": cs, "observed": obs[i].String(),
-			"expected": expected, "observed_lisp": c14Pretty(obs[i].String()), "expected_lisp": c14Pretty(replies[i]),
+		ow := obs[i].String()
+		if obs[i].ok {
+			ow = "ok " + obs[i].wires[j]
+		}
+		c.Report(c14Signature(cs, a), cs.Sweep, map[string]any{"input": cs.Call, "case": cs, "observed": obs[i].String(),
+			"expected": expected, "failing_call": j + 1, "observed_lisp": c14Pretty(ow), "expected_lisp": c14Pretty(m),
 			"expected_from": from, "relies_on": []string{"SlipVerif.Theorems.C14"}})
 	}
 	if path := os.Getenv("VERIF_C14_DUMP"); path != "" {
@@ -1543,6 +2210,7 @@ func runC14(c *lib.Ctx) {
 		_ = os.WriteFile(path, []byte(sb.String()), 0o644)
 	}
 	c.Ev.Coverage["traces_validated_against_impl"] = len(cases)
+	c.Ev.Coverage["calls_evaluated"] = 3 * len(cases)
 	c.Ev.Coverage["agreements"] = agree
 	c.Ev.Coverage["sweep_cases"] = nSweep
 	c.Ev.Coverage["composite_cases"] = nComposite
@@ -1579,7 +2247,7 @@ func c14Exhaustive(funs []c14Fun, listed []c14Listed, add func(c14Case)) {
 				total *= 4
 			}
 			for code := 0; code < total; code++ {
-				s := c14Seq{kind: cb.kind}
+				s := c14Seq{kind: cb.kind, tname: cb.t.name}
 				x := code
 				for i := 0; i < n; i++ {
 					s.elems = append(s.elems, cb.t.alpha[x%4])
@@ -1600,7 +2268,7 @@ func c14Exhaustive(funs []c14Fun, listed []c14Listed, add func(c14Case)) {
 									w, l := c14EqTo(cb.t.alpha[0])
 									b.arg(l, "pred="+w)
 								}
-								b.arg(s.lisp(), "seq="+s.wire())
+								b.seq("seq", s)
 								if start > 0 {
 									b.kw("start", fmt.Sprint(start), fmt.Sprintf("start=%d", start))
 								}
